@@ -114,6 +114,10 @@ class Interp:
         for p, d in zip(a.kwonlyargs, a.kw_defaults):
             if d is not None:
                 defaults[p.arg] = d
+        if a.vararg is not None and a.vararg.arg in args:
+            env[a.vararg.arg] = tuple(args[a.vararg.arg])
+        if a.kwarg is not None and a.kwarg.arg in args:
+            env[a.kwarg.arg] = dict(args[a.kwarg.arg])
         for p in params:
             if p in args:
                 env[p] = args[p]
